@@ -3,6 +3,7 @@ package mon
 import (
 	"fmt"
 	"math/big"
+	"strings"
 
 	"verifh/gen"
 	"verifh/model"
@@ -37,8 +38,13 @@ func LookalikeStreams() [][]*model.Value {
 		{foo(), model.NullV(model.Struct).WithAnn(T("a"), T("$ion_symbol_table")), model.NullV(model.List).WithAnn(T("$ion_symbol_table")), bar()},
 		{foo(), model.StructV(f("imports", model.SymV(T("$ion_symbol_table"))), f("symbols", model.ListV(model.StrV("zz")))).WithAnn(T("x"), T("$ion_symbol_table")), foo(), bar()},
 	}
+	all = append(all,
+		[]*model.Value{foo(), model.SymV(T("$ion_1_0_1")), bar(), model.SymV(T("$ion_2_0x")), model.SymV(T("$ion_1_0a")), foo(), model.SymV(T("$ion_1_1_beta")), model.SymV(T("$ion_1_0$")), bar()},
+		[]*model.Value{bar(), model.SymV(T("$ion_1_0_draft")), foo(), model.SymV(T("$ion_symbol_table2")), model.StructV(f("symbols", model.ListV(model.StrV("zz")))).WithAnn(T("$ion_symbol_table2")), foo(), bar()},
+	)
 	all = append(all, deepSiblingStreams()...)
 	all = append(all, longTailStreams()...)
+	all = append(all, bigTextStreams()...)
 	var out [][]*model.Value
 	for _, s := range all {
 		ok := true
@@ -109,6 +115,20 @@ func longTailStreams() [][]*model.Value {
 		s2 := append([]*model.Value{}, model.CloneAll(head)...)
 		s2 = append(s2, model.CloneAll(tail.Kids)...)
 		out = append(out, append(s2, model.ClobV([]byte("late clob"))))
+	}
+	return out
+}
+
+// bigTextStreams hold strings, symbols and clobs a little longer than 64 KiB and 128 KiB whose
+// multi-byte characters straddle every multiple of 65536 bytes (readers that take large payloads
+// in pieces must not look at the pieces as if each were a whole).
+func bigTextStreams() [][]*model.Value {
+	var out [][]*model.Value
+	for _, unit := range []string{"€", "😀", "é", "a€", "ab😀"} {
+		for _, total := range []int{65534, 65536, 65539, 131073} {
+			s := strings.Repeat(unit, total/len(unit)+2)
+			out = append(out, []*model.Value{model.Int64V(1), model.StrV(s), model.Int64V(42), model.ListV(model.StrV("a" + s)), model.SymV(model.T("end"))})
+		}
 	}
 	return out
 }
